@@ -171,6 +171,9 @@ func FieldAccesses(fn *ssa.Function) []FieldAccess {
 											add(owner, f.Name(), "content", rr)
 										}
 									case *ssa.IndexAddr:
+										if rr.X != ssa.Value(r) {
+											break // used as the index, not as the indexed value
+										}
 										if ir := rr.Referrers(); ir != nil {
 											for _, x := range *ir {
 												if st, ok := x.(*ssa.Store); ok && st.Addr == rr {
